@@ -6,6 +6,7 @@ package storage
 // Hooks for the verification harness (/verif). Compiled only with -tags verif.
 
 import (
+	"context"
 	"fmt"
 	"sync"
 	"unsafe"
@@ -130,10 +131,16 @@ func (this *Allocator) VerifPlacement(partitionCount uint, replicationFactor uin
 	return res, addrs
 }
 
-// VerifNewDataset builds a Dataset object the way createDataset does (newDataset), for a
-// node `selfId`, with the given replica assignment per partition. No raft group is loaded.
+// VerifNewDataset builds a Dataset object through the catalogue's own apply path
+// (DatasetManager.createDataset on a marshalled entry), for a node `selfId`, with the given
+// replica assignment per partition.
 func VerifNewDataset(db *badger.DB, selfId uint64, dim uint32, space pb.Space, replicationFactor uint32, partitionNodeIds [][]uint64) (*Dataset, error) {
 	conn, err := cluster.NewConn(selfId, fmt.Sprintf("node-%d", selfId), "")
+	if err != nil {
+		return nil, err
+	}
+	tr := raft.NewTransport(selfId, fmt.Sprintf("node-%d", selfId), conn)
+	dm, err := NewDatasetManager(verifNullGroup{}, db, tr, conn, NewAllocator(conn))
 	if err != nil {
 		return nil, err
 	}
@@ -142,8 +149,24 @@ func VerifNewDataset(db *badger.DB, selfId uint64, dim uint32, space pb.Space, r
 	for _, nodeIds := range partitionNodeIds {
 		meta.Partitions = append(meta.Partitions, &pb.Partition{Id: uuid.NewV4().Bytes(), NodeIds: nodeIds})
 	}
-	return newDataset(id, meta, db, nil, conn, nil)
+	data, err := proto.Marshal(&meta)
+	if err != nil {
+		return nil, err
+	}
+	if err := dm.createDataset(uuid.NewV4(), data); err != nil {
+		return nil, err
+	}
+	return dm.Get(id)
 }
+
+// verifNullGroup is a catalogue group that accepts registrations and never delivers anything.
+type verifNullGroup struct{}
+
+func (verifNullGroup) RegisterProcessFn(raft.ProcessFn) error         { return nil }
+func (verifNullGroup) RegisterProcessSnapshotFn(raft.ProcessFn) error { return nil }
+func (verifNullGroup) RegisterSnapshotFn(raft.SnapshotFn) error       { return nil }
+func (verifNullGroup) LeaderId() uint64                               { return 0 }
+func (verifNullGroup) Propose(context.Context, []byte) error          { return nil }
 
 // VerifOwnerIndex is the index (in catalogue order) of the partition an id is routed to.
 func (this *Dataset) VerifOwnerIndex(id uuid.UUID) int {
